@@ -64,7 +64,20 @@ static std::vector<Arr> layout(const mjModel* m, size_t* sizes_off, size_t* stru
   MJMODEL_SIZES
 #undef X
   *structs_off = off;
-  off += sizeof(mjOption) + sizeof(mjVisual) + sizeof(mjStatistic) + 2 * sizeof(mjtBool);
+  off += sizeof(mjOption) + sizeof(mjVisual) + sizeof(mjStatistic);
+  {
+    // the scalar flags written after the structs (flg_*): their number is the file's own business, so it is taken from the length
+    // the engine declares minus everything else (a wrong declared length still shows as a save overrun / load mismatch below)
+    size_t arrays = 0;
+    MJMODEL_POINTERS_PREAMBLE(m)
+#define XNV X
+#define X(type, name, nr, nc) arrays += sizeof(type) * (size_t)((long)(m->nr) * (nc));
+    MJMODEL_POINTERS
+#undef X
+#undef XNV
+    size_t declared = (size_t)mj_sizeModel(m);
+    if (declared >= off + arrays && declared - off - arrays <= 64) off = declared - arrays;
+  }
   {
     MJMODEL_POINTERS_PREAMBLE(m)
 #define XNV X
@@ -208,6 +221,31 @@ int main(int argc, char** argv) {
     mj_saveModel(m2, nullptr, bytes2.data(), (int)sz);
     if (memcmp(bytes.data(), bytes2.data(), (size_t)sz)) { size_t i = 0; while (bytes[i] == bytes2[i]) i++; violation("roundtrip-mismatch", "save(load(save(m))) differs from save(m) at byte %zu of %lld", i, (long long)sz); }
     check_bounds(m2, "round trip");
+    // what the file does not carry is invisible to the byte comparison: the scalar members of mjModel that are neither sizes nor
+    // structs are compared one by one ...
+    if (m2->flg_gravcomp != m->flg_gravcomp) violation("roundtrip-mismatch", "flg_gravcomp is %d after save and load, was %d", (int)m2->flg_gravcomp, (int)m->flg_gravcomp);
+    if (m2->flg_surfacevel != m->flg_surfacevel) violation("roundtrip-mismatch", "flg_surfacevel is %d after save and load, was %d", (int)m2->flg_surfacevel, (int)m->flg_surfacevel);
+    if (m2->flg_adhesion != m->flg_adhesion) violation("roundtrip-mismatch", "flg_adhesion is %d after save and load, was %d", (int)m2->flg_adhesion, (int)m->flg_adhesion);
+    // ... and the loaded model must simulate exactly like the original (same seeded history on both, every mjData array compared)
+    if (!m->nplugin && opt_long("nosim", 0) == 0) {
+      size_t cap0 = g_cap; g_cap = (size_t)1 << 40;   // the cap is for loads of corrupted files, not for the simulation's own mjData
+      mjData* da = mu::make_data(m, s + 11); mjData* db = mu::make_data(m2, s + 11);
+      Rng rs(s ^ 0x51ED270BULL);
+      int nst = rs.range(3, 12);
+      bool ea = false, eb = false;
+      for (int k = 0; k < nst && !ea && !eb; k++) {
+        for (int i = 0; i < m->nu; i++) da->ctrl[i] = db->ctrl[i] = rs.uniform(-1, 1);
+        ea = ND_GUARD({ mj_step(m, da); }); eb = ND_GUARD({ mj_step(m2, db); });
+      }
+      if (ea != eb) violation("roundtrip-behaviour", "mj_step raised an error with %s only: %s", ea ? "the original model" : "the loaded model", g_lasterr);
+      if (!ea) {
+        mu::Diff df = mu::compare(m, da, db, hs::scratch_fields(m));
+        if (df.differs) violation("roundtrip-behaviour", "after %d steps the loaded model's simulation differs from the original's in %s[%ld] (%s)", nst, df.field.c_str(), df.index, df.detail.c_str());
+        count("roundtrip_simulation_comparisons");
+      }
+      mj_deleteData(da); mj_deleteData(db);
+      g_cap = cap0;
+    }
     mj_deleteModel(m2);
     count("roundtrips");
     // ---------------- round trip and write faults through the simulated disk
